@@ -45,8 +45,8 @@ def generate(ctx, deep=False):
     for kind, s in nc.tag_blocks(bases):
         cases.append((kind, [s]))
     mbases = bases if (deep or not ctx.quick) else [b for b in bases if b[0] in
-                                                   ('single', 'single-bs-lower', 'part2of2', 'fill5', 'extra-field',
-                                                    'gatehouse', 'gatehouse-lower', 'low-xor')]
+                                                   ('single', 'single-bs-lower', 'part2of2', 'fill5', 'extra-field', 'empty-payload',
+                                                    'unknown-id', 'gatehouse', 'gatehouse-lower', 'low-xor')]
     for kind, s in nc.matrix(mbases, tokens):
         cases.append((kind, [s]))
     for kind, s in nc.truncations(bases):
@@ -87,25 +87,8 @@ def reader_oracle(rep, line):
                       {'entry': 'NMEAQueue.put_line', 'parts': [line.hex()], 'strict': False})
 
 
-import re  # noqa: E402
-HUGE_FILL = re.compile(rb',[ \t+]*[0-9_]{7,}[ \t]*\*')
-STAGE1 = True    # unchanged code: Codec.v's decode_into_bit_array iterates fill_bits times on a huge count -- keep such
-                 # inputs away from the MODEL (the implementation still sees them) until the range check is in
-
-
 def run_cases(ctx, cases, readers=True):
     rep, model = ctx.rep, ctx.model
-    if STAGE1 and model:
-        keep = [c for c in cases if not any(HUGE_FILL.search(p) for p in c[1])]
-        for c in cases:
-            if any(HUGE_FILL.search(p) for p in c[1]):
-                for strict in (False, True):
-                    res = nc.impl_decode(c[1], strict)
-                    if res[0] == 'Raise' and not nc.is_library_exception(res[2]):
-                        violation(rep, 'decode', c[1], strict, res)
-                        break
-                rep.count('skipped:model-huge-fill')
-        cases = keep
     singles = [(i, parts[0]) for i, (_, parts) in enumerate(cases) if len(parts) == 1]
     m_prod = dict(zip((i for i, _ in singles), nc.model_produce(model, [s for _, s in singles]))) if model else {}
     m_dec = {}
